@@ -135,8 +135,21 @@ func hooksField(h *api.Hooks, kind string) *[]*api.Hook {
 	panic(kind)
 }
 
+// mount: the value is carried by the second option; the source changes only with every second
+// plugin value (10 -> v0, 20 and 30 -> v20, ...), so that some pairs of writers differ in nothing
+// but the contents of their option lists (same destination, type, source and number of options)
 func mount(dest string, v int) *api.Mount {
-	return &api.Mount{Destination: dest, Source: "/src/" + sv(v), Type: "bind", Options: []string{"rbind", "o" + sv(v)}}
+	return &api.Mount{Destination: dest, Source: "/src/" + sv(v-v%20), Type: "bind", Options: []string{"rbind", "o" + sv(v)}}
+}
+
+func mountVal(source string, options []string) int {
+	for _, o := range options {
+		if strings.HasPrefix(o, "ov") {
+			return pv(o)
+		}
+	}
+	// mounts built by hand (no value option): the source names the value
+	return pv(strings.TrimPrefix(source, "/src/"))
 }
 
 func device(path string, v int) *api.LinuxDevice {
@@ -510,7 +523,7 @@ func ReadContainer(c *api.Container) (map[Item]int, map[string][]int, []string) 
 			problems = append(problems, "duplicate mount "+m.Destination)
 		}
 		seenM[m.Destination] = true
-		cont[Item{Kind: "mount", Key: m.Destination}] = pv(strings.TrimPrefix(m.Source, "/src/"))
+		cont[Item{Kind: "mount", Key: m.Destination}] = mountVal(m.Source, m.Options)
 	}
 	if len(c.Args) == 2 && c.Args[0] == "cmd" {
 		if c.Args[1] != "orig" {
@@ -668,7 +681,7 @@ func ReadSpec(s *rspec.Spec) (map[Item]int, map[string][]int, []string) {
 			problems = append(problems, "duplicate mount "+m.Destination)
 		}
 		seenM[m.Destination] = true
-		cont[Item{Kind: "mount", Key: m.Destination}] = pv(strings.TrimPrefix(m.Source, "/src/"))
+		cont[Item{Kind: "mount", Key: m.Destination}] = mountVal(m.Source, m.Options)
 	}
 	if h := s.Hooks; h != nil {
 		rd := func(kind string, hs []rspec.Hook) {
